@@ -21,117 +21,120 @@ var evC02 = ev.New("C02", "derived frame (two columns per type, nulls) x clause 
 	"non-trivial = tree has >=2 leaves or a negated leaf on a column containing null, non-identity index, result neither empty nor everything; "+
 	"distinct = FNV-64 of (base table, route, clause)")
 
-func TestC02(t *testing.T) {
-	rapid.Check(t, func(t *rapid.T) {
-		base := hx.GenTable(t, hx.TableOpt{PerKind: 2, SharedEnum: true, AllowDerived: true, MinEnum: 2})
-		steps := 4
-		if hx.Rarely(t, 1500, "blocksize") {
-			b := hx.GenBlockTable(t)
-			// two columns per type, as the clause generator expects
-			b.Cols = append(b.Cols, b.Cols[2], b.Cols[3], b.Cols[4])
-			b.Cols[7].Name, b.Cols[8].Name, b.Cols[9].Name = "b2", "s2", "e2"
-			base, steps = b, 1
-		}
-		d := hx.GenDerived(t, base, steps)
-		// C02 owns Filter (and the frame must be what the derivation says)
-		obs, err := hx.Observe(d.QF)
-		if err != nil {
-			t.Fatalf("observe derived: %v\n%s", err, d.String())
-		}
-		if diff := hx.Diff(d.Exp, obs); diff != "" {
-			t.Fatalf("derived frame differs from model: %s\n%s", diff, d.String())
-		}
-		in := d.Exp
-		// now and then the frame has an earlier life that touched its data columns (what it holds then is observed)
-		var hist hx.History
-		if steps > 1 && rapid.IntRange(0, 3).Draw(t, "history") == 0 {
-			d.QF, in, hist = hx.GenHistory(t, d.QF, in, true)
-			d.Route = append(d.Route, hist.String())
-		}
-		clause := hx.GenClause(t, in, 3, hx.ClauseOpt{Focus: hist.Focus})
-		desc := func() string { return d.String() + "input " + in.String() + "clause " + clause.String() }
+func TestC02(t *testing.T) { rapid.Check(t, propC02) }
 
-		var res = d.QF
-		realClause := clause.Build(hx.KindMap(in))
-		if rapid.IntRange(0, 3).Draw(t, "secondcall") == 0 {
-			// the same clause value on the same frame a second time: that result counts (nothing may be left
-			// behind in the frame, its columns or the clause by the first call)
-			_ = hx.Safely(func() { _ = d.QF.Filter(realClause) })
-		}
-		if perr := hx.Safely(func() { res = d.QF.Filter(realClause) }); perr != nil {
-			t.Fatalf("Filter panicked: %v\n%s", perr, desc())
-		}
-		if res.Err != nil {
-			t.Fatalf("Filter returned Err for a well-typed clause: %v\n%s", res.Err, desc())
-		}
-		var keep []int
-		for r := 0; r < in.N(); r++ {
-			if clause.Eval(in, r) {
-				keep = append(keep, r)
-			}
-		}
-		want := in.Rows(keep)
-		got, err := hx.Observe(res)
-		if err != nil {
-			t.Fatalf("observe result: %v\n%s", err, desc())
-		}
-		if diff := hx.Diff(want, got); diff != "" {
-			t.Fatalf("Filter result differs from model (kept rows want %v): %s\n%s\nresult %s", keep, diff, desc(), got.String())
-		}
+// FuzzC02: the same property driven by coverage-guided bytes (thorough tier).
+func FuzzC02(f *testing.F) { f.Fuzz(rapid.MakeFuzz(propC02)) }
 
-		// follow-up calls on the result: whatever a frame remembers about how it was made, a later Filter looks at its
-		// own clause - another clause narrows further, the same clause again changes nothing
-		if rapid.IntRange(0, 3).Draw(t, "followup") == 0 {
-			clause2 := hx.GenClause(t, in, 2, hx.ClauseOpt{})
-			r2 := res.Filter(clause2.Build(hx.KindMap(in)))
-			var keep2 []int
-			for _, r := range keep {
-				if clause2.Eval(in, r) {
-					keep2 = append(keep2, r)
-				}
-			}
-			g2, err := hx.Observe(r2)
-			if err != nil || r2.Err != nil {
-				t.Fatalf("second Filter on the result: %v %v\n%s\nsecond clause %s", r2.Err, err, desc(), clause2.String())
-			}
-			if diff := hx.Diff(in.Rows(keep2), g2); diff != "" {
-				t.Fatalf("Filter(%s) of the Filter result differs from the model: %s\n%s", clause2.String(), diff, desc())
-			}
-			r3 := res.Filter(realClause)
-			g3, err := hx.Observe(r3)
-			if err != nil || r3.Err != nil || hx.Diff(want, g3) != "" {
-				t.Fatalf("the same Filter applied to its own result changed it: %v %v %s\n%s", r3.Err, err, hx.Diff(want, g3), desc())
+func propC02(t *rapid.T) {
+	base := hx.GenTable(t, hx.TableOpt{PerKind: 2, SharedEnum: true, AllowDerived: true, MinEnum: 2})
+	steps := 4
+	if hx.Rarely(t, 1500, "blocksize") {
+		b := hx.GenBlockTable(t)
+		// two columns per type, as the clause generator expects
+		b.Cols = append(b.Cols, b.Cols[2], b.Cols[3], b.Cols[4])
+		b.Cols[7].Name, b.Cols[8].Name, b.Cols[9].Name = "b2", "s2", "e2"
+		base, steps = b, 1
+	}
+	d := hx.GenDerived(t, base, steps)
+	// C02 owns Filter (and the frame must be what the derivation says)
+	obs, err := hx.Observe(d.QF)
+	if err != nil {
+		t.Fatalf("observe derived: %v\n%s", err, d.String())
+	}
+	if diff := hx.Diff(d.Exp, obs); diff != "" {
+		t.Fatalf("derived frame differs from model: %s\n%s", diff, d.String())
+	}
+	in := d.Exp
+	// now and then the frame has an earlier life that touched its data columns (what it holds then is observed)
+	var hist hx.History
+	if steps > 1 && rapid.IntRange(0, 3).Draw(t, "history") == 0 {
+		d.QF, in, hist = hx.GenHistory(t, d.QF, in, true)
+		d.Route = append(d.Route, hist.String())
+	}
+	clause := hx.GenClause(t, in, 3, hx.ClauseOpt{Focus: hist.Focus})
+	desc := func() string { return d.String() + "input " + in.String() + "clause " + clause.String() }
+
+	var res = d.QF
+	realClause := clause.Build(hx.KindMap(in))
+	if rapid.IntRange(0, 3).Draw(t, "secondcall") == 0 {
+		// the same clause value on the same frame a second time: that result counts (nothing may be left
+		// behind in the frame, its columns or the clause by the first call)
+		_ = hx.Safely(func() { _ = d.QF.Filter(realClause) })
+	}
+	if perr := hx.Safely(func() { res = d.QF.Filter(realClause) }); perr != nil {
+		t.Fatalf("Filter panicked: %v\n%s", perr, desc())
+	}
+	if res.Err != nil {
+		t.Fatalf("Filter returned Err for a well-typed clause: %v\n%s", res.Err, desc())
+	}
+	var keep []int
+	for r := 0; r < in.N(); r++ {
+		if clause.Eval(in, r) {
+			keep = append(keep, r)
+		}
+	}
+	want := in.Rows(keep)
+	got, err := hx.Observe(res)
+	if err != nil {
+		t.Fatalf("observe result: %v\n%s", err, desc())
+	}
+	if diff := hx.Diff(want, got); diff != "" {
+		t.Fatalf("Filter result differs from model (kept rows want %v): %s\n%s\nresult %s", keep, diff, desc(), got.String())
+	}
+
+	// follow-up calls on the result: whatever a frame remembers about how it was made, a later Filter looks at its
+	// own clause - another clause narrows further, the same clause again changes nothing
+	if rapid.IntRange(0, 3).Draw(t, "followup") == 0 {
+		clause2 := hx.GenClause(t, in, 2, hx.ClauseOpt{})
+		r2 := res.Filter(clause2.Build(hx.KindMap(in)))
+		var keep2 []int
+		for _, r := range keep {
+			if clause2.Eval(in, r) {
+				keep2 = append(keep2, r)
 			}
 		}
-		// classification
-		negNull := false
-		classes := []string{}
-		clause.Walk(func(c hx.Clause) {
-			if c.Op == "leaf" {
-				col := in.MustCol(c.Col)
-				classes = append(classes, fmt.Sprintf("leaf:%s:%s:%s", col.Kind, c.Comp, c.Arg))
-				if c.Inverse && col.HasNull() {
-					negNull = true
-				}
-			}
-			if c.Op == "not" && c.Kids[0].Op == "leaf" && in.MustCol(c.Kids[0].Col).HasNull() {
+		g2, err := hx.Observe(r2)
+		if err != nil || r2.Err != nil {
+			t.Fatalf("second Filter on the result: %v %v\n%s\nsecond clause %s", r2.Err, err, desc(), clause2.String())
+		}
+		if diff := hx.Diff(in.Rows(keep2), g2); diff != "" {
+			t.Fatalf("Filter(%s) of the Filter result differs from the model: %s\n%s", clause2.String(), diff, desc())
+		}
+		r3 := res.Filter(realClause)
+		g3, err := hx.Observe(r3)
+		if err != nil || r3.Err != nil || hx.Diff(want, g3) != "" {
+			t.Fatalf("the same Filter applied to its own result changed it: %v %v %s\n%s", r3.Err, err, hx.Diff(want, g3), desc())
+		}
+	}
+	// classification
+	negNull := false
+	classes := []string{}
+	clause.Walk(func(c hx.Clause) {
+		if c.Op == "leaf" {
+			col := in.MustCol(c.Col)
+			classes = append(classes, fmt.Sprintf("leaf:%s:%s:%s", col.Kind, c.Comp, c.Arg))
+			if c.Inverse && col.HasNull() {
 				negNull = true
 			}
-			if c.Op == "or" && len(c.Kids) > 1 {
-				classes = append(classes, "or-with-several-children")
-			}
-		})
-		if negNull {
-			classes = append(classes, "negated-leaf-on-nullable-column")
 		}
-		if d.NonIdentity() {
-			classes = append(classes, "non-identity-index")
+		if c.Op == "not" && c.Kids[0].Op == "leaf" && in.MustCol(c.Kids[0].Col).HasNull() {
+			negNull = true
 		}
-		nontrivial := (clause.Leaves() >= 2 || negNull) && d.NonIdentity() && len(keep) > 0 && len(keep) < in.N()
-		// the receiver is as it was (its positional and its by-name observers)
-		if again, err := hx.Observe(d.QF); err != nil || hx.Diff(in, again) != "" {
-			t.Fatalf("the operation changed its receiver: %v %s\n%s", err, hx.Diff(in, again), desc())
+		if c.Op == "or" && len(c.Kids) > 1 {
+			classes = append(classes, "or-with-several-children")
 		}
-		evC02.Case(nontrivial, desc, classes...)
 	})
+	if negNull {
+		classes = append(classes, "negated-leaf-on-nullable-column")
+	}
+	if d.NonIdentity() {
+		classes = append(classes, "non-identity-index")
+	}
+	nontrivial := (clause.Leaves() >= 2 || negNull) && d.NonIdentity() && len(keep) > 0 && len(keep) < in.N()
+	// the receiver is as it was (its positional and its by-name observers)
+	if again, err := hx.Observe(d.QF); err != nil || hx.Diff(in, again) != "" {
+		t.Fatalf("the operation changed its receiver: %v %s\n%s", err, hx.Diff(in, again), desc())
+	}
+	evC02.Case(nontrivial, desc, classes...)
 }
